@@ -142,6 +142,16 @@ func ineqsOf(facts []Atom) []ineq {
 				x, y := linOf(a.X), linOf(a.Y)
 				out = append(out, ineq{x, y}, ineq{y, x})
 			}
+			// len(s) != 0: a length is never negative, so 1 <= len(s)
+			if !a.Pos && isIntish(a.X) && isIntish(a.Y) {
+				x, y := linOf(a.X), linOf(a.Y)
+				if y.base == nil && y.off == 0 && x.isLen {
+					out = append(out, ineq{lin{off: 1 - x.off}, lin{base: x.base, isLen: true}})
+				}
+				if x.base == nil && x.off == 0 && y.isLen {
+					out = append(out, ineq{lin{off: 1 - y.off}, lin{base: y.base, isLen: true}})
+				}
+			}
 		}
 	}
 	return out
@@ -254,6 +264,52 @@ func (pv *prover) le(a, b lin, facts []Atom, depth int) bool {
 		if bo, ok := b.base.(*ssa.BinOp); ok && bo.Op == token.ADD && a.base == nil {
 			zero := lin{off: 0}
 			if a.off <= b.off && pv.le(zero, linOf(bo.X), facts, depth+1) && pv.le(zero, linOf(bo.Y), facts, depth+1) {
+				return true
+			}
+		}
+	}
+	// min/max builtins
+	minmax := func(l lin) (string, []ssa.Value) {
+		if l.isLen || l.base == nil {
+			return "", nil
+		}
+		if call, ok := l.base.(*ssa.Call); ok {
+			if bi, ok := call.Common().Value.(*ssa.Builtin); ok && (bi.Name() == "min" || bi.Name() == "max") {
+				return bi.Name(), call.Common().Args
+			}
+		}
+		return "", nil
+	}
+	if depth < 6 {
+		if kind, args := minmax(a); kind != "" {
+			// min(xs)+o <= b if some x+o <= b; max(xs)+o <= b if every x+o <= b
+			some, all := false, true
+			for _, x := range args {
+				lx := linOf(x)
+				lx.off += a.off
+				if pv.le(lx, b, facts, depth+2) {
+					some = true
+				} else {
+					all = false
+				}
+			}
+			if (kind == "min" && some) || (kind == "max" && all && len(args) > 0) {
+				return true
+			}
+		}
+		if kind, args := minmax(b); kind != "" {
+			// a <= min(xs)+o if a <= every x+o; a <= max(xs)+o if a <= some x+o
+			some, all := false, true
+			for _, x := range args {
+				lx := linOf(x)
+				lx.off += b.off
+				if pv.le(a, lx, facts, depth+2) {
+					some = true
+				} else {
+					all = false
+				}
+			}
+			if (kind == "max" && some) || (kind == "min" && all && len(args) > 0) {
 				return true
 			}
 		}
